@@ -12,10 +12,12 @@ import (
 	"github.com/ipfs/go-graphsync/notifications"
 )
 
-// RequestCloser can cancel request on a network error
+// RequestCloser can cancel request on a network error. The calls come from the notifications
+// of one response's messages: they name that response through its subscriber, because a request
+// ID may by then belong to a later response (the same ID sent again, by this peer or another).
 type RequestCloser interface {
-	TerminateRequest(requestID graphsync.RequestID)
-	CloseWithNetworkError(requestID graphsync.RequestID)
+	TerminateRequest(requestID graphsync.RequestID, owner *subscriber)
+	CloseWithNetworkError(requestID graphsync.RequestID, owner *subscriber)
 }
 
 type subscriber struct {
@@ -63,10 +65,10 @@ func (s *subscriber) OnNext(_ notifications.Topic, event notifications.Event) {
 	}
 	switch responseEvent.Name {
 	case messagequeue.Error:
-		s.requestCloser.CloseWithNetworkError(s.request.ID())
+		s.requestCloser.CloseWithNetworkError(s.request.ID(), s)
 		responseCode := responseEvent.Metadata.ResponseCodes[s.request.ID()]
 		if responseCode.IsTerminal() {
-			s.requestCloser.TerminateRequest(s.request.ID())
+			s.requestCloser.TerminateRequest(s.request.ID(), s)
 		}
 		if s.reportOutcome(outcomeNetworkError) {
 			s.networkErrorListeners.NotifyNetworkErrorListeners(s.p, s.request, responseEvent.Err)
@@ -78,7 +80,7 @@ func (s *subscriber) OnNext(_ notifications.Topic, event notifications.Event) {
 		}
 		responseCode := responseEvent.Metadata.ResponseCodes[s.request.ID()]
 		if responseCode.IsTerminal() {
-			s.requestCloser.TerminateRequest(s.request.ID())
+			s.requestCloser.TerminateRequest(s.request.ID(), s)
 			if s.reportOutcome(outcomeCompleted) {
 				s.completedListeners.NotifyCompletedListeners(s.p, s.request, responseCode)
 			}
